@@ -376,7 +376,10 @@ pub fn derive_block(input: TokenStream) -> TokenStream {
         let it = if in_names.len() == 1 {
             quote! { #first.iter().take(n) }
         } else {
-            quote! { #first.iter().take(n)#(.zip(#rest.iter()))* }
+            // izip!() gives flat tuples for any number of inputs. Chained
+            // .zip() calls nest them, which only matches the (a, b, ...)
+            // pattern below for exactly two inputs.
+            quote! { itertools::izip!(#first.iter().take(n) #(, #rest.iter())*) }
         };
         if has_attr(&input.attrs, "sync", STRUCT_ATTRS) {
             let first_tags = &in_tag_names[0];
